@@ -3,12 +3,14 @@ package main
 // C14, round 3.
 //
 // Kind "aged": a healthy pooled connection AGES between exchanges.
-//   case:   <id> tr=<udp|tcp|tcpp|tls|tlsp|doh|doq> age=<ms> tick=<ms|0> n=<k>
+//   case:   <id> tr=<udp|tcp|tcpp|tls|tlsp|doh|doq> age=<ms> tick=<ms|0> n=<k> [dl=<ms>] [delay=<ms>]
+//     delay (udp): after the first exchange the server holds every reply back for <delay> ms (an exchange in flight
+//     while the connection's silence reaches an idle time-out); dl: deadline of the later exchanges (default 1.5 s).
 //     upstream.NewUpstream with its DEFAULT time-outs against a healthy loopback server that never closes a connection.
 //     One exchange (dials; the connection is pooled), then the connection ages for <age> ms - silently (tick=0) or with
 //     an exchange every <tick> ms - then n exchanges back to back (deadline 1.5 s each).
 //   result: res=<R|E|H per exchange after the first> late=<0|1> acc=<connections the server accepted after the first
-//           exchange; udp: new client sockets>
+//           exchange; udp: new client sockets> [qs=<query datagrams the udp server received after the first exchange>]
 //
 // Kind "dup": the server answers every query, but sends each reply k times.
 //   case:   <id> tr=<udp|tcpp|tlsp> k=<copies> mode=<b2b|inter> conc=<n> after=<m> dl=<ms>
@@ -139,11 +141,18 @@ func agedCase(f map[string]string) string {
 		return "HARNESS-ERROR " + err.Error()
 	}
 	defer ogCloseLater(u)
-	const dl = 1500 * time.Millisecond
+	dl := 1500 * time.Millisecond
+	if f["dl"] != "" {
+		dl = time.Duration(hx.MustAtoi(f["dl"])) * time.Millisecond
+	}
 	if c, _ := ogOne(u, 0x1000, 3*time.Second); c != 'R' {
 		return "HARNESS-ERROR the first exchange failed"
 	}
 	srv.acc.Store(0)
+	srv.qcount.Store(0)
+	if f["delay"] != "" {
+		srv.replyDelay.Store(int64(time.Duration(hx.MustAtoi(f["delay"])) * time.Millisecond))
+	}
 	var res strings.Builder
 	late := 0
 	note := func(c byte) {
@@ -169,6 +178,10 @@ func agedCase(f map[string]string) string {
 	for i := 0; i < n && late == 0; i++ {
 		c, _ := ogOne(u, uint16(0x3000+i), dl)
 		note(c)
+	}
+	if tr == "udp" {
+		time.Sleep(50 * time.Millisecond)
+		return fmt.Sprintf("res=%s late=%d acc=%d qs=%d", res.String(), late, srv.acc.Load(), srv.qcount.Load())
 	}
 	return fmt.Sprintf("res=%s late=%d acc=%d", res.String(), late, srv.acc.Load())
 }
